@@ -61,6 +61,7 @@ def run_case(case, ctx):
 			stem, ext, gz = names[i % len(names)]
 			return clean_name(stem, ext + ('.gz' if gz else ''), for_list), gz
 		args = []
+		list_cwd = [None, None]    # working directory imposed by a list-file variant (at most one side), label
 		W = None
 		if rmode == 'use_db':
 			w = dict(case['world'])
@@ -95,7 +96,12 @@ def run_case(case, ctx):
 			else:
 				lf = os.path.join(d, 'ql.txt')
 				H.write_listfile(lf, rel, case.get('list_style', 0))
-				args += ['--ql', lf, '--qdir', os.path.join(d, 'qbase')]
+				if case.get('list_cwd') and not case.get('relative') and list_cwd[0] is None:
+					list_cwd[0], give = H.list_cwd_setup(case['list_cwd'], os.path.join(d, 'qscratch'), os.path.join(d, 'qbase'), rel, qgen)
+					list_cwd[1] = 'q:' + case['list_cwd']
+				else:
+					give = True
+				args += ['--ql', lf] + (['--qdir', os.path.join(d, 'qbase')] if give else [])
 		# references
 		if rmode == 'rs':
 			rids = [5000 + 7 * i for i in range(nr)] if case['int_ids'] else [nm(i + 7, False)[0] + f'@{i}' for i in range(nr)]
@@ -128,12 +134,17 @@ def run_case(case, ctx):
 			else:
 				lf = os.path.join(d, 'rl.txt')
 				H.write_listfile(lf, rel, (case.get('list_style', 0) + 2) % 5)
-				args += ['--rl', lf, '--rdir', os.path.join(d, 'rbase')]
+				if case.get('list_cwd') and not case.get('relative') and list_cwd[0] is None:
+					list_cwd[0], give = H.list_cwd_setup(case['list_cwd'], os.path.join(d, 'rscratch'), os.path.join(d, 'rbase'), rel, rgen)
+					list_cwd[1] = 'r:' + case['list_cwd']
+				else:
+					give = True
+				args += ['--rl', lf] + (['--rdir', os.path.join(d, 'rbase')] if give else [])
 		if case['cores'] is not None:
 			args += ['-c', str(case['cores'])]
 		args += ['--progress' if case['progress'] else '--no-progress']
 
-		cwd = None
+		cwd = list_cwd[0]
 		if case.get('relative'):
 			# paths given relative to the working directory
 			cwd = d
@@ -201,6 +212,8 @@ def run_case(case, ctx):
 			classes.append('rerun_after_content_change')
 		if case.get('stale_output'):
 			classes.append('output_path_preexists')
+		if list_cwd[1]:
+			classes.append('list_cwd=' + list_cwd[1])
 		if any(any(ch in l for ch in ',"\n') for l in qlabels + rlabels):
 			classes.append('label_needs_quoting')
 		if any(ord(ch) > 127 for l in qlabels + rlabels for ch in l):
@@ -239,6 +252,7 @@ def gen_case(draw, tier):
 		'list_style': draw(st.integers(0, 4)),
 		'prerun': draw(st.sampled_from([False, False, False, True])),
 		'stale_output': draw(st.sampled_from([False, False, True])),
+		'list_cwd': draw(st.sampled_from([None, 'decoy', None, 'implicit'])),
 	}
 	if rmode == 'use_db':
 		case['world'] = draw(Wd.world(max_refs=4, min_refs=1, max_queries=1, nasty_names=False))
